@@ -87,7 +87,19 @@ func (p *poller) addConn(c *Conn) error {
 		p.g.onUDPListen(c)
 	}
 	p.g.connsUnix[fd] = c
-	err := p.addRead(fd)
+	// A Write issued before this point (e.g. inside the open callback) could
+	// not arm the write event because the fd was not registered yet: register
+	// with the write event if there is a backlog already.
+	var err error
+	c.mux.Lock()
+	if len(c.writeList) > 0 {
+		c.isWAdded = true
+		err = p.addReadWrite(fd)
+	} else {
+		c.isWAdded = false
+		err = p.addRead(fd)
+	}
+	c.mux.Unlock()
 	if err != nil {
 		p.g.connsUnix[fd] = nil
 		_ = c.closeWithError(err)
